@@ -80,22 +80,49 @@ theorem C11_int_value (ds : List Char) (hne : ds ≠ []) (hd : ∀ c ∈ ds, isD
 
 example : tokenise "0042".toList = .ok [⟨.num, 0, 4, .num (.int 42)⟩] := by rfl
 
-/-- **C11 (based integer literal).**  `0b`/`0o`/`0x`/`0d` followed by a non-empty run of hexadecimal digit
-    characters (and then no further one): when every digit is below the base the token's value is the
+/-- **C11 (based integer literal) — partial.**  `0b`/`0o`/`0x`/`0d` followed by a non-empty run of hexadecimal
+    digit characters (and then no further one): when every digit is below the base the token's value is the
     integer of the digits in base 2/8/16/10; otherwise the literal is a `BadNumberError` at its first
-    character (`0b12`, `0d1f`). -/
-theorem C11_based_value (m : Char) (hs rest : List Char) (hm : m = 'x' ∨ m = 'o' ∨ m = 'b' ∨ m = 'd')
-    (hne : hs ≠ []) (hh : ∀ c ∈ hs, isHex c = true) (hstop : NoStart isHex rest) :
+    character (`0b12`, `0d1f`).
+
+    Full statement: the same without `hnp`.  What is missing: in the current tree `int(group2, base=2)` swallows
+    a second binary prefix, so `0b0b1` is read as the number 1 although `b` is no binary digit (finding
+    `lex-value-double-prefix`, fix in fixes/c11-binary-double-prefix.diff).  The translator probes the code for
+    this (`Gen.Tokens.intAcceptsBinPrefix`); once the fix is in, the probe is `false`, `hnp` holds by `Or.inl rfl`
+    and this theorem is the full statement. -/
+theorem C11_based_value_partial (m : Char) (hs rest : List Char) (hm : m = 'x' ∨ m = 'o' ∨ m = 'b' ∨ m = 'd')
+    (hne : hs ≠ []) (hh : ∀ c ∈ hs, isHex c = true) (hstop : NoStart isHex rest)
+    (hnp : Gen.Tokens.intAcceptsBinPrefix = false ∨ ¬ DoublePrefix m hs) :
     readToken 0 ('0' :: m :: (hs ++ rest)) =
       if hs.all (fun c => digitVal c < baseOf m) then
         .ok (some ⟨.num, 0, 2 + hs.length,
           .num (.int (Nat.ofDigits (baseOf m) (hs.reverse.map digitVal) : Nat))⟩)
       else .error (.badNumber 0) := by
-  rw [readToken_digit (by decide), readNumToken_based hm hne hh hstop, digitsVal_eq_ofDigits]
+  rw [readToken_digit (by decide), readNumToken_based hm hne hh hstop, basedValue_plain hne hnp]
+  by_cases hall : hs.all (fun c => digitVal c < baseOf m) = true
+  · simp only [hall, if_true]; rw [digitsVal_eq_ofDigits]
+  · simp only [hall, Bool.false_eq_true, if_false]
+
+/-- the hypotheses are satisfiable, for every base letter, whatever the probe says -/
+example : ¬ DoublePrefix 'b' "101".toList := by
+  intro ⟨_, p, tl, h, _⟩; simp at h
+example : ¬ DoublePrefix 'x' "0b1".toList := by intro ⟨h, _⟩; exact absurd h (by decide)
 
 example : baseOf 'b' = 2 ∧ baseOf 'o' = 8 ∧ baseOf 'x' = 16 ∧ baseOf 'd' = 10 := by decide
 example : tokenise "0xfF".toList = .ok [⟨.num, 0, 4, .num (.int 255)⟩] := by rfl
 example : tokenise "0b12".toList = .error (.badNumber 0) := by rfl
+/-- the finding, as the model (= the code) has it today; after the fix the probe is `false` and this reads
+    `BadNumberError(0)`. -/
+example : Gen.Tokens.intAcceptsBinPrefix = true →
+    tokenise "0b0b1".toList = .ok [⟨.num, 0, 5, .num (.int 1)⟩] := by
+  intro h
+  have hr : readToken 0 ("0b0b1".toList ++ []) = .ok (some ⟨.num, 0, 5, .num (.int 1)⟩) := by
+    rw [show "0b0b1".toList ++ [] = '0' :: 'b' :: ("0b1".toList ++ []) from rfl, readToken_digit (by decide),
+      readNumToken_based (by simp) (by decide) (by decide) (noStart_nil _)]
+    simp [basedValue, h, stripBinPrefix, baseOf, digitsVal, digitVal, isDigit]
+  have := tokenise_tok (l := "0b0b1".toList) (rest := []) hr rfl
+  rw [List.append_nil] at this
+  rw [this]; rfl
 
 /-- **C11 (scientific literal, integer mantissa).**  `m e [+-] k` (digits `ds`, optional sign, digits `es`,
     then no further digit) is one number token with the exact value `M·10^E`: the int `M * 10**E` when
